@@ -247,6 +247,8 @@ pub enum Repr {
     Appended { split: u16, pre: Vec<u8> },
     /// rest collected, first part prepended from a window
     Prepended { split: u16, pre: Vec<u8> },
+    /// `Seq::new()` (or a cleared sequence) then `insert(0, window)`
+    InsertedIntoEmpty { pre: Vec<u8>, cleared: bool },
     /// `Seq::from(&BitSlice)` (the unstable constructor) of a bit slice starting `head` bits into a word
     FromBitSlice { head: u8 },
     /// junk collected, `clear()`, then the content extended (dead bits of the old content remain behind)
@@ -280,6 +282,7 @@ impl Repr {
             Repr::Truncated { .. } => "truncated",
             Repr::Appended { .. } => "appended",
             Repr::Prepended { .. } => "prepended",
+            Repr::InsertedIntoEmpty { .. } => "inserted_into_empty",
             Repr::FromBitSlice { .. } => "from_bitslice",
             Repr::Refilled { .. } => "refilled",
             Repr::TruncExtend { .. } => "trunc_extend",
@@ -300,7 +303,7 @@ impl Repr {
     /// symbols in front of the content in the slice an owned value was copied from
     pub fn born_offset(&self) -> usize {
         match self {
-            Repr::OffsetOwned { pre, .. } | Repr::OffsetClone { pre, .. } | Repr::AndSelf { pre, .. } | Repr::OrSelf { pre, .. } | Repr::ToRev2 { pre } => pre.len(),
+            Repr::OffsetOwned { pre, .. } | Repr::OffsetClone { pre, .. } | Repr::AndSelf { pre, .. } | Repr::OrSelf { pre, .. } | Repr::ToRev2 { pre } | Repr::InsertedIntoEmpty { pre, .. } | Repr::Appended { pre, .. } | Repr::Prepended { pre, .. } => pre.len(),
             _ => 0,
         }
     }
@@ -523,7 +526,8 @@ fn build_raw<C: Cm>(sy: &Syms<C>, spec: &SeqSpec) -> R<Built<C>> {
         }
         Repr::Appended { split, pre } => {
             let pre = sane(m, pre);
-            let k = (*split as usize).min(n);
+            // every fifth selector: the receiver is empty (fast paths for empty receivers)
+            let k = if split % 5 == 0 { 0 } else { crate::obs::scale16(*split, n) };
             let mut s = sy.seq(&codes[..k]);
             let p = sy.seq(&cat(&[&pre, &codes[k..]]));
             s.append(&p[pre.len()..]);
@@ -531,10 +535,23 @@ fn build_raw<C: Cm>(sy: &Syms<C>, spec: &SeqSpec) -> R<Built<C>> {
         }
         Repr::Prepended { split, pre } => {
             let pre = sane(m, pre);
-            let k = (*split as usize).min(n);
+            let k = if split % 5 == 0 { n } else { crate::obs::scale16(*split, n) };
             let mut s = sy.seq(&codes[k..]);
             let p = sy.seq(&cat(&[&pre, &codes[..k]]));
             s.prepend(&p[pre.len()..]);
+            Built::Owned(s)
+        }
+        Repr::InsertedIntoEmpty { pre, cleared } => {
+            let pre = sane(m, pre);
+            let mut s = if *cleared {
+                let mut t = sy.seq(&pre);
+                t.clear();
+                t
+            } else {
+                Seq::<C>::new()
+            };
+            let p = sy.seq(&cat(&[&pre, &codes]));
+            s.insert(0, &p[pre.len()..]);
             Built::Owned(s)
         }
         Repr::FromBitSlice { head } => {
